@@ -68,7 +68,7 @@ func c19GroupOf(q *UpQuery) int {
 }
 
 func TestVfC19Prefetch(t *testing.T) {
-	st := vfkit.Stats("TestVfC19Prefetch", "runs of 20-80 independent names: TTL in {6,8,10,12} s, entries primed for 1-3 client groups, then a burst of 1-120 concurrent hits per group (from 1, 2 or 4 client addresses of the group) at a drawn instant inside the last quarter of the lifetime (in every other run the primings are staggered so that all bursts fall on one instant and every refresh is held until all bursts of the run are answered: 40-160 refreshes in flight at once); the upstream holds the refresh reply until all burst responses are collected (or 3 s), then the refresh ends as success (new TTL 30 / 60 s, or 1 / 2 s, i.e. less than what is left of the old entry) / success answered only after the old entry expired / NOERROR-NODATA / NXDOMAIN / SERVFAIL / REFUSED / garbage / silence / connection closed, over a UDP or a TCP upstream (where transport errors are immediate), one name in three at a proxy whose cache is the harness's RESP3 store only; oracles: every hit of the burst is answered from the old entry while the refresh is held, exactly one refresh per group is started and in flight, after a successful refresh later hits carry the new fetch (without a further upstream query when the reply came after the old expiry), after a failed or negative refresh the old entry is served until its expiry and not 2 s beyond, and a further hit in the window starts a new refresh (the reservation ended with the refresh); non-trivial = burst >= 2 inside the window")
+	st := vfkit.Stats("TestVfC19Prefetch", "runs of 20-80 independent names: TTL in {6,8,10,12} s, entries primed for 1-3 client groups, then a burst of 1-120 concurrent hits per group (from 1, 2 or 4 client addresses of the group) at a drawn instant inside the last quarter of the lifetime (in every other run the primings are staggered so that all bursts fall on one instant and every refresh is held until all bursts of the run are answered: 40-160 refreshes in flight at once); the upstream holds the refresh reply until all burst responses are collected (or 3 s), then the refresh ends as success (new TTL 30 / 60 s, or 1 / 2 s, i.e. less than what is left of the old entry) / success answered only after the old entry expired / NOERROR-NODATA / NXDOMAIN / SERVFAIL / REFUSED / a truncated (TC) reply / garbage / silence / connection closed, over a UDP or a TCP upstream (where transport errors are immediate), one name in three at a proxy whose cache is the harness's RESP3 store only; oracles: every hit of the burst is answered from the old entry while the refresh is held, exactly one refresh per group is started and in flight, after a successful refresh later hits carry the new fetch (without a further upstream query when the reply came after the old expiry), after a failed or negative refresh the old entry is served until its expiry and not 2 s beyond, and a further hit in the window starts a new refresh (the reservation ended with the refresh); non-trivial = burst >= 2 inside the window")
 	defer vfkit.Flush()
 	block := NextIPBlock()
 	var names sync.Map
@@ -115,6 +115,12 @@ func TestVfC19Prefetch(t *testing.T) {
 				a.Reply = EncodeMsg(m)
 			case "nxdomain":
 				m := KeyedAnswer(q.Msg, "c19", uint32(q.Seq), 30, 3)
+				a.Reply = EncodeMsg(m)
+			case "truncated":
+				// NOERROR, TC=1, nothing in it (over the udp upstream the TCP leg gets the same reply): not an answer to keep
+				m := KeyedAnswer(q.Msg, "c19", uint32(q.Seq), 30, 0)
+				m.An = nil
+				m.Bits |= vfkit.BitTC
 				a.Reply = EncodeMsg(m)
 			case "servfail":
 				a.Reply = EncodeMsg(KeyedAnswer(q.Msg, "c19", uint32(q.Seq), 30, 2))
@@ -208,7 +214,7 @@ func TestVfC19Prefetch(t *testing.T) {
 			// lifetime remain, and 150 ms after the start of the window.
 			q := time.Duration(n.ttl) * time.Second / 4
 			n.burstAt = 3*q + 150*time.Millisecond + time.Duration(rapid.IntRange(0, int((q-1450*time.Millisecond)/time.Millisecond)).Draw(t, "intoWindowMs"))*time.Millisecond
-			n.outcome = rapid.SampledFrom([]string{"success", "success", "slow-success", "nodata", "nxdomain", "servfail", "refused", "garbage", "silence", "conn-closed"}).Draw(t, "outcome")
+			n.outcome = rapid.SampledFrom([]string{"success", "success", "slow-success", "nodata", "nxdomain", "servfail", "refused", "truncated", "garbage", "silence", "conn-closed"}).Draw(t, "outcome")
 			n.viaTCP = rapid.Bool().Draw(t, "viaTCP")
 			n.viaStore = rapid.IntRange(0, 2).Draw(t, "viaStore") == 0
 			n.newTTL = rapid.SampledFrom([]uint32{30, 60}).Draw(t, "newTTL")
@@ -539,7 +545,7 @@ func TestVfC19Prefetch(t *testing.T) {
 						// The failed refresh has ended (its reply was released 400 ms ago), so nothing is in flight for this
 						// key: this hit - still inside the window - must be able to start a refresh of its own. A single-flight
 						// reservation that outlives its refresh would silently switch prefetching off for the key.
-						ended := n.outcome == "servfail" || n.outcome == "refused" || n.outcome == "nxdomain" || (n.viaTCP && (n.outcome == "garbage" || n.outcome == "conn-closed"))
+						ended := n.outcome == "servfail" || n.outcome == "refused" || n.outcome == "nxdomain" || n.outcome == "truncated" || (n.viaTCP && (n.outcome == "garbage" || n.outcome == "conn-closed"))
 						if refreshed[g] && ended {
 							relChecked.Add(1)
 							again := false
